@@ -178,6 +178,9 @@ def arr(p, key):
     if p.get("container") in ("list", "tuple"):      # plain Python sequences (functions documented as taking array-likes)
         seq = [float(t) for t in v]
         return seq if p["container"] == "list" else tuple(seq)
+    if p.get("readonly"):      # data the caller cannot write to (a read-only memory map, a view of an immutable buffer)
+        a = np.array([float(t) for t in v]); a.flags.writeable = False
+        return a
     if p.get("intdtype") and all(float(t).is_integer() and abs(t) < 2**40 for t in v):
         return POOL.get(key, [int(t) for t in v], np.int64)
     return POOL.get(key, v, float)
@@ -778,6 +781,15 @@ class StratPerm(Fn):
             ok = len(set(group)) >= 2 and all(set(c for g2, c in zip(group, cond) if g2 == g) == {0, 1} for g in set(group))
             if not ok:
                 stat = "callable"
+        if rng.random() < 0.25:
+            # three conditions, every group holding all of them in (mostly) unequal numbers: the documented statistic is then the sum over
+            # groups of the standard deviation of the condition means (about the mean of those means, whatever the cell sizes)
+            group, cond = [], []
+            for g in rng.sample([1, 2, 4, 7], rng.randint(2, 3)):
+                for c, k in zip((0, 1, 2), rng.choice([(1, 1, 2), (1, 2, 2), (2, 1, 3), (1, 1, 1), (3, 1, 1), (1, 2, 1)])):
+                    group += [g] * k; cond += [c] * k
+            o = list(range(len(group))); rng.shuffle(o)
+            group = [group[i] for i in o]; cond = [cond[i] for i in o]; n = len(group); stat = "mean3"
         return {"group": group, "cond": cond, "resp": small_values(rng, n), "reps": pick_reps(rng, 10), "alt": rng.choice(ALTS),
                 "plus1": rng.random() < 0.5, "stat": stat, "w": weights(rng, n)}
 
@@ -803,7 +815,7 @@ class StratPerm(Fn):
 
     def op(self, p, draws):
         return (f"stratperm|{p['alt']}|{int(p['plus1'])}|{ints(p['group'])}|{ints(p['cond'])}|{rats(p['resp'])}|"
-                f"{'cdot' if p['stat'] == 'callable' else 'mean2'}|{rows3(draws)}")
+                f"{'mean2' if p['stat'] == 'mean' else 'cdot'}|{rows3(draws)}")
 
     def unpack(self, p, ret):
         return {"p": ret[0], "obs": ret[1], "dist": list(ret[2])}
@@ -822,6 +834,17 @@ class StratPerm(Fn):
                 for i in range(reps):
                     if [int(v) for v in seen[1 + i]] != margs[i]:
                         probs.append(f"repetition {i}: statistic received {seen[1 + i].tolist()}, model {margs[i]}"); break
+        if p["stat"] == "mean3":
+            # not a rational statistic: the model supplies the rearranged condition labels, the documented statistic is evaluated in doubles
+            g_ = np.array(p["group"]); r_ = np.array(p["resp"], dtype=float)
+            def stat3(cv):
+                cv = np.array(cv)
+                return float(sum(np.std([r_[(g_ == g) & (cv == c)].mean() for c in (0, 1, 2)]) for g in sorted(set(p["group"]))))
+            if abs(float(res["obs"]) - stat3(p["cond"])) > 1e-9 * max(1.0, abs(stat3(p["cond"]))):
+                probs.append(f"observed statistic {float(res['obs'])} is not the sum over groups of the standard deviation of the condition means ({stat3(p['cond'])})")
+            if len(res["dist"]) != reps or any(abs(float(a) - stat3(cv)) > 1e-9 * max(1.0, abs(stat3(cv))) for a, cv in zip(res["dist"], margs)):
+                probs.append("simulated statistics are not the documented statistic on the model's within-group rearrangements of the conditions")
+            return probs
         if not close(res["obs"], mobs):
             probs.append(f"observed statistic {float(res['obs'])} != {float(mobs)}")
         if not (len(res["dist"]) == reps and all(close(a, b) for a, b in zip(res["dist"], mdist))):
@@ -838,7 +861,7 @@ class SimCorr(Fn):
         ng = rng.randint(1, 3)
         group = []
         for g in rng.sample([1, 2, 4, 7], ng):
-            group += [g] * rng.randint(3, 4)
+            group += [g] * rng.choice([2, 2, 3, 4])      # two observations: that stratum's correlation is +1 or -1
         rng.shuffle(group)
         n = len(group)
         while True:
@@ -1044,6 +1067,8 @@ def run_recorded(ctx, names, per_fn, site_prefix="", presets=None):
                     ctx.count("data-on-a-large-baseline")
                 if name in LIST_OK and ctx.rng.random() < 0.08:
                     p["container"] = "list"; ctx.count("python-sequence-inputs")
+                elif ctx.rng.random() < 0.08:
+                    p["readonly"] = True; ctx.count("read-only-input-arrays")
             g, gkind, gseed = mk_generator(ctx.rng)
             # scalar options as they come out of NumPy computations / configuration files: np.int64 repetitions, np.bool_ / 0-1 flags
             pc = p
